@@ -8,9 +8,12 @@ import (
 
 // Accessors for the external verification harness (build tag "verif" only).
 
-// VerifNumHandlers returns the number of registered calls.
+// VerifNumHandlers returns the number of registered calls, or -1 while the
+// registry lock is held (it never blocks).
 func (rm *RpcMultiplexer) VerifNumHandlers() int {
-	rm.mutex.Lock()
+	if !rm.mutex.TryLock() {
+		return -1
+	}
 	defer rm.mutex.Unlock()
 	return len(rm.handlers)
 }
